@@ -331,12 +331,12 @@ def main(argv):
     backend_lattice(ob)
     n_backend = ob.n - n_before
     jobs = [(s, m) for s in O.systems() for m in (False, True)]
-    res = C.pool_map(shard, jobs)
+    res = O.concolic_map(shard, jobs)
     n = ob.n + sum(r[0] for r in res)
     bad = ob.bad + [b for r in res for b in r[1]]
     # the named conversions (to_<system>, to_VectorND, like): result dimension / coordinate system as named - the C04 lattice under this property's label
     from . import c04
-    cres = C.pool_map(c04.shard, jobs)
+    cres = O.concolic_map(c04.shard, jobs)
     n += sum(r[0] for r in cres)
     conv_bad = [(oid.replace("C04/", "C05/conversion:", 1), d_) for r in cres for oid, d_ in r[1]]
     bad += conv_bad
